@@ -284,7 +284,10 @@ def run_doc(case: dict) -> core.CaseResult:
     if case.get('claims', True):
         todo.extend(claim_refusal_ops(root))
     seen_ops = set()
-    for op in todo:
+    shard = case.get('shard')          # [k, n]: this case judges every n-th call of a document with a large alphabet
+    for idx, op in enumerate(todo):
+        if shard and idx % shard[1] != shard[0]:
+            continue
         k = repr(op)
         if k in seen_ops:
             continue
@@ -352,6 +355,11 @@ def main(run: core.Run) -> None:
     items += [dict(c, level='basic', claims=False) for c in docexp.class_cases(1)]
     forms = c09.cost_forms()
     items += [{'text': c09.cost_doc(f), 'mode': True, 'level': 'basic', 'claims': False} for f in (forms if tier != 'quick' else forms[::6])]
+    sharded = []
+    for c in items:
+        n = 16 if c['text'].count('\n') >= 5 else 4 if c['text'].count('\n') >= 2 else 1
+        sharded += [dict(c, shard=[k, n]) for k in range(n)] if n > 1 else [c]
+    items = sharded
     run.run_cases(run_case, items, 'refusals from parsed states', chunk=1)
     if depth1:
         run.run_cases(run_case, depth1, 'refusals from depth-1 states', chunk=4)
